@@ -13,12 +13,14 @@
 (*   saw    k = M - 1 - (i mod M)     descending teeth                      *)
 (*   mul    k = (7 i) mod M           scattered (M coprime to 7)           *)
 (*   const  k = 5                     everything ties                       *)
+(*   lead   two equal maxima first, then strictly descending               *)
+(*   tail   strictly descending, then two equal minima                     *)
 (* Keys are numbers, or the same numbers as zero-padded strings.           *)
 (***************************************************************************)
 EXTENDS JMES, Json, Toks, SequencesExt
 CONSTANTS Emit, Prop, Sizes
 
-Pats == <<"desc", "asc", "cyc", "saw", "mul", "const">>
+Pats == <<"desc", "asc", "cyc", "saw", "mul", "const", "lead", "tail">>
 B == 10   M == 9
 KeyN(pat, n, i) ==              \* i is 0-based
   CASE pat = "desc" -> (n - 1 - i) \div B
@@ -27,6 +29,8 @@ KeyN(pat, n, i) ==              \* i is 0-based
     [] pat = "saw" -> M - 1 - (i % M)
     [] pat = "mul" -> (7 * i) % M
     [] pat = "const" -> 5
+    [] pat = "lead" -> IF i <= 1 THEN n - 2 ELSE n - 1 - i      \* two equal maxima, then strictly descending
+    [] pat = "tail" -> IF i >= n - 2 THEN 1 ELSE n - i          \* strictly descending, two equal minima at the end
 Pad4(k) == <<48 + ((k \div 1000) % 10), 48 + ((k \div 100) % 10), 48 + ((k \div 10) % 10), 48 + (k % 10)>>
 KeyV(pat, str, n, i) == IF str THEN Str(Pad4(KeyN(pat, n, i))) ELSE JInt(KeyN(pat, n, i))
 Rec(pat, str, n, i) == Obj(<<Mem(<<107>>, KeyV(pat, str, n, i)), Mem(<<112>>, JInt(i))>>)
@@ -45,6 +49,8 @@ Order(pat, n) ==
     [] pat = "cyc" -> LET grp(r) == Stride(r, M, n) IN Cat(grp, 0, M - 1)
     [] pat = "saw" -> LET grp(r) == Stride(M - 1 - r, M, n) IN Cat(grp, 0, M - 1)
     [] pat = "mul" -> LET grp(r) == Stride((4 * r) % M, M, n) IN Cat(grp, 0, M - 1)      \* 7 * 4 = 28 = 1 (mod 9)
+    [] pat = "lead" -> [j \in 1..(n - 2) |-> n - j] \o <<0, 1>>
+    [] pat = "tail" -> <<n - 2, n - 1>> \o [j \in 1..(n - 2) |-> n - 2 - j]
 
 X == Id(<<120>>)  Kf == Id(<<107>>)  Pf == Id(<<112>>)
 Fn(name, args) == <<Id(name), LP>> \o args \o <<RP>>
